@@ -47,4 +47,6 @@ def doc_history_alphabet(tier, with_values=None, rich=False):
     for an in (("A", "k", S("ex")), ("A", "k", BARE), ("B", "k", Q("ex"))):
         for v in vals:
             ops.append(("at", an, v))
+    # the two in-place editors that do not go through add_attributes
+    ops += [("asrt", "q_prov"), ("settime", "start", "t2"), ("settime", "end", "t1")]
     return ops
